@@ -1,9 +1,19 @@
 (* Props/C01.v -- Concurrent commits are serializable: no acknowledged write lost or duplicated.
-   Statements only; proofs are in Proofs/CommitProofs.v. *)
-From Coq Require Import ZArith List Bool Arith.
+   Statements only, each closed by `exact <lemma>`; the lemmas are assembled in Proofs/C01Statements.v from
+   Proofs/CommitProofs.v (the invariant of the commit machine), CommitMetaProofs.v (composition with C15's Model/Meta.v),
+   CommitRetryProofs.v, CommitLateProofs.v and, for the lock layer, Proofs/ProcLockProofs.v.
+
+   WHAT IS ABSTRACTED.  Model/Commit.v holds a table's content as the list of operation ids applied to the initial
+   table (`m_ops`): the protocol only looks at the OCC stamp.  What the operations MEAN is Model/Meta.v (C15, tied to
+   the source by C15_step_regenerated); C01_serializable_tables and C01_snapshot_chain read the result through that
+   meaning (Model/CommitMeta.v `table_of`: every committer a stands for the Meta operation `op_of a` its successful
+   attempt applied; `op_of` is universally quantified). *)
+From Coq Require Import ZArith List Bool Arith Sorted Lia FinFun.
 Require Import DS.Model.CommitBase DS.Gen.GenCommit DS.Model.Commit DS.Proofs.CommitGenProofs DS.Proofs.CommitProofs.
-Require Import DS.Model.ProcLockBase DS.Gen.GenFileLock DS.Model.ProcLock.
+Require Import DS.Model.CommitMeta DS.Model.CommitLate DS.Proofs.C01Statements.
+Require Import DS.Model.ProcLockBase DS.Gen.GenFileLock DS.Model.ProcLock DS.Model.ProcLockKeep.
 Require DS.Proofs.ProcLockProofs.
+Require DS.Model.Meta DS.Model.MetaSpec.
 Import ListNotations.
 Open Scope Z_scope.
 
@@ -14,23 +24,29 @@ Open Scope Z_scope.
    events that are not enabled are skipped) and EVERY clock reading carried by the events (frozen,
    coarse or decreasing clocks included). *)
 
-(* The table the pointer names is the initial table with exactly the flipped commits applied, one
-   after another, in the order the pointer advanced. *)
+(* The version the pointer names holds the initial content with exactly the flipped commits applied, one
+   after another, in the order the pointer advanced (content = list of applied operations). *)
 Theorem C01_serializable : forall c m0 kind mr evs, sound c ->
   let w := run c (init_world m0 kind mr) evs in
   m_ops (file w (w_ptr w)) = m_ops m0 ++ map snd (w_hist w).
-Proof. intros. apply reach_serializable. assumption. Qed.
+Proof. exact c01_serializable. Qed.
 Print Assumptions C01_serializable.
+
+(* ... read through Model/Meta.v: the TABLE the pointer names (snapshots, parents, sequence numbers, snapshot log,
+   manifests) equals the initial table with the mutators of exactly the flipped commits applied by Meta.step, one after
+   another, in the order the pointer advanced -- for every interpretation of the committers as Meta operations. *)
+Theorem C01_serializable_tables : forall c m0 kind mr evs (T0 : Meta.state) (op_of : aid -> Meta.op), sound c ->
+  let w := run c (init_world m0 kind mr) evs in
+  table_of T0 op_of (file w (w_ptr w)) = Meta.run (table_of T0 op_of m0) (flip_ops op_of w).
+Proof. exact c01_serializable_tables. Qed.
+Print Assumptions C01_serializable_tables.
 
 (* Every commit that reported success is reflected, and no commit is reflected twice. *)
 Theorem C01_acked_exactly_once : forall c m0 kind mr evs, sound c ->
   let w := run c (init_world m0 kind mr) evs in
   NoDup (map snd (w_hist w))
   /\ forall a, a_pc (w_actors w a) = PDone Success -> In a (map snd (w_hist w)).
-Proof.
-  intros c m0 kind mr evs S w. split; [apply reach_once; assumption|].
-  intros a H. apply (reach_acked c m0 kind mr evs S a). fold w. rewrite H. reflexivity.
-Qed.
+Proof. exact c01_acked_exactly_once. Qed.
 Print Assumptions C01_acked_exactly_once.
 
 (* A commit that raised -- a conflict after its retry budget, or an error / interrupt / process death
@@ -41,22 +57,55 @@ Theorem C01_raised_not_reflected : forall c m0 kind mr evs, sound c ->
   forall a, (a_pc (w_actors w a) = PDone Conflict \/ a_pc (w_actors w a) = PDone Aborted -> ~ In a (map snd (w_hist w)))
          /\ (In a (map snd (w_hist w)) ->
              a_pc (w_actors w a) = PFlipped \/ a_pc (w_actors w a) = PDone Success \/ a_pc (w_actors w a) = PDone AbortedPost).
-Proof.
-  intros c m0 kind mr evs S w a. pose proof (reach_acked c m0 kind mr evs S a) as F. fold w in F. split.
-  - intros [H|H] In; apply F in In; rewrite H in In; discriminate.
-  - intro In. apply F in In. destruct (a_pc (w_actors w a)) as [| | | | | | | |[]]; simpl in In; try discriminate; auto.
-Qed.
+Proof. exact c01_raised_not_reflected. Qed.
 Print Assumptions C01_raised_not_reflected.
 
-(* The committed versions form one linear chain: each extends its predecessor by exactly its
+(* ASSUMPTION made visible: "a refused conditional write (412) was not applied".  Model/CommitLate.v adds the event
+   the assumption excludes -- a committer's conditional pointer write is applied by the store and the committer is
+   nevertheless told `precondition failed` (an HTTP layer that re-sends a request whose first copy landed).  The full
+   statement (a commit that reported a conflict is not reflected, whatever the HTTP layer does) is a Definition
+   (CommitLate.conflict_not_reflected_with_resent_writes); it holds for the event lists without that event
+   (`_partial`, the exact extra hypothesis is `no_late evs`) and is FALSE with it (`_refuted`, witness by vm_compute:
+   one committer, budget 1, reports a conflict and is in the table). *)
+Theorem C01_conflict_not_reflected_partial : forall c m0 kind mr evs, sound c -> no_late evs ->
+  let w := late_run c (init_world m0 kind mr) evs in
+  forall a, a_pc (w_actors w a) = PDone Conflict -> ~ In a (map snd (w_hist w)).
+Proof. exact c01_conflict_not_reflected_partial. Qed.
+Print Assumptions C01_conflict_not_reflected_partial.
+
+Theorem C01_conflict_not_reflected_refuted : ~ conflict_not_reflected_with_resent_writes.
+Proof. exact c01_conflict_not_reflected_refuted. Qed.
+Print Assumptions C01_conflict_not_reflected_refuted.
+
+(* The committed metadata VERSIONS form one linear chain: each extends its predecessor by exactly its
    committer's operation and carries a strictly larger last-updated stamp. *)
-Theorem C01_chain_linear : forall c m0 kind mr evs, sound c ->
+Theorem C01_version_chain_linear : forall c m0 kind mr evs, sound c ->
   let w := run c (init_world m0 kind mr) evs in
   chain_ok (w_files w) 0%nat (w_hist w) /\ w_ptr w = lastv 0%nat (w_hist w).
-Proof.
-  intros c m0 kind mr evs S w. destruct (reach_inv c m0 kind mr evs S) as [I _]. split; apply I.
-Qed.
-Print Assumptions C01_chain_linear.
+Proof. exact c01_version_chain_linear. Qed.
+Print Assumptions C01_version_chain_linear.
+
+(* The surviving SNAPSHOT chain (property text: "linear with strictly increasing sequence numbers"), C01 composed
+   with C15.  The initial version holds the table that the history ops0 built on a freshly created table; distinct
+   committers draw distinct positive snapshot ids and distinct metadata-file names (what uuid4 provides -- a
+   hypothesis on the interpretation alone, not on the run).  Then after EVERY schedule the table the pointer names is
+   well-formed w.r.t. the ghost history H of everything committed in pointer order (MetaSpec.WF: current snapshot
+   retained or none, every parent link nothing or a retained TRUE ancestor, retained snapshots unchanged but for the
+   parent and unique, sequence numbers strictly increasing over H), and read in snapshot-log order -- which is the
+   order the pointer advanced -- the retained snapshots' sequence numbers strictly increase. *)
+Theorem C01_snapshot_chain : forall c m0 kind mr evs (t0 f0 : Z) (ops0 : list Meta.op) (op_of : aid -> Meta.op),
+  sound c -> m_ops m0 = [] ->
+  (forall l : list aid, NoDup l -> MetaSpec.fresh_ops f0 (ops0 ++ map op_of l)) ->
+  let w := run c (init_world m0 kind mr) evs in
+  let T := Meta.md (table_of (MetaSpec.replay t0 f0 ops0) op_of (file w (w_ptr w))) in
+  let H := MetaSpec.hist_of t0 f0 (ops0 ++ flip_ops op_of w) in
+  MetaSpec.WF H T
+  /\ StronglySorted Z.lt (map Meta.seq (MetaSpec.retained_in_commit_order H T))
+  /\ map snd (Meta.slog T) = map Meta.sid (MetaSpec.retained_in_commit_order H T)
+  /\ (forall s, In s (Meta.snaps T) ->
+        exists h, In h (MetaSpec.retained_in_commit_order H T) /\ Meta.sid h = Meta.sid s /\ Meta.seq h = Meta.seq s).
+Proof. exact c01_snapshot_chain. Qed.
+Print Assumptions C01_snapshot_chain.
 
 (* The machine the theorems above are about is the protocol the SOURCE performs: the success path of `step`
    (lock, validating read -- on conditional-write storage the read that also yields the ETag --, stamp + metadata
@@ -75,30 +124,47 @@ Theorem C01_skeleton_regenerated :
          /\ Forall (fun e => e_actor e = b) evs
          /\ run_strict c w ({| e_actor := b; e_kind := EBegin (w_ptr w) |} :: evs) 0 = inl w'
          /\ a_pc (w_actors w' b) = PDone Success /\ w_ptr w' = length (w_files w)).
-Proof.
-  split; [exact model_path_cas_regenerated|]. split; [exact model_path_plain_regenerated|].
-  split; [exact gen_stamp_eqb_spec|]. split; [exact gen_new_lu_gt|]. exact regenerated_skeleton_runs.
-Qed.
+Proof. exact c01_skeleton_regenerated. Qed.
 Print Assumptions C01_skeleton_regenerated.
 
 (* A conflict is retried against a freshly read base up to the regenerated attempt bound, then reported after a
-   rollback; every exception class is handled (nothing leaves commit() with the transaction still active). *)
+   rollback; every exception class is handled (nothing leaves commit() with the transaction still active).  The
+   machine's retry step IS that table (what `step` does on the release after a conflict is read off gen_tx_on with
+   `last` = "this was the last attempt of the budget"), and in every run whose committers start with the REGENERATED
+   budget gen_max_retries no attempt beyond the budget is started and a conflict is reported only after exactly
+   gen_max_retries attempts. *)
 Theorem C01_conflict_retried :
   gen_tx_on XConflict false = TxRetry /\ gen_tx_on XConflict true = TxRollbackDelete /\ (0 < gen_max_retries)%nat
-  /\ (forall e last, gen_tx_on e last <> TxPropagate).
-Proof. destruct conflict_retries as [A [B C]]. repeat split; try assumption. exact every_class_finishes. Qed.
+  /\ (forall e last, gen_tx_on e last <> TxPropagate)
+  /\ (forall c w e w', e_kind e = ERelease -> a_pc (w_actors w (e_actor e)) = PConflict -> step c w e = Some w' ->
+        let s := w_actors w (e_actor e) in
+        match gen_tx_on XConflict (negb (Nat.ltb (S (a_attempt s)) (a_maxr s))) with
+        | TxRetry => a_pc (w_actors w' (e_actor e)) = PIdle /\ a_attempt (w_actors w' (e_actor e)) = S (a_attempt s)
+        | TxRollbackDelete => a_pc (w_actors w' (e_actor e)) = PDone Conflict
+        | _ => False
+        end)
+  /\ (forall c m0 kind evs a,
+        let s := w_actors (run c (init_world m0 kind (fun _ => gen_max_retries)) evs) a in
+        (a_attempt s < gen_max_retries)%nat /\ (a_pc s = PDone Conflict -> S (a_attempt s) = gen_max_retries)).
+Proof. exact c01_conflict_retried. Qed.
 Print Assumptions C01_conflict_retried.
 
 (* ---- "storage with real mutual exclusion", local filesystem: the layer below `lockkind = Excl`.
    Writers are FileLock handles (one per Table handle) placed in OS processes by an ARBITRARY topology
    `proc : hid -> pid` -- threads of one process with separate handles, one process per handle, several handles in
-   one process next to handles in other processes.  Each handle runs FileLock's program on the lock file one kernel
+   one process next to handles in other processes, and processes created by FORK: `LFork h h'` makes handle h' (in
+   another process) the twin of h, copying the handle object and INHERITING its open descriptors (two handles sharing
+   one open file description; Model/ProcLock.v).  Each handle runs FileLock's program on the lock file one kernel
    primitive per event (open; non-blocking attempt; close after a refusal; unlock; close), processes can be killed,
    and EVERY event list is a schedule.  The kernel's ownership discipline is `gen_lock_disc`, read off the primitive
-   the source calls on every run (Gen/GenFileLock.v; flock = the lock belongs to the open file description). *)
+   the source calls on every run (Gen/GenFileLock.v; flock = the lock belongs to the open file description).
+   Hypothesis on the environment, spelled out: `forks_quiescent` -- every fork of the event list copies a handle that
+   is idle at that moment (the application forks its workers between commits, not from inside one; why this cannot be
+   dropped: C01_fork_while_holding_not_exclusive below -- that is fork(2), not FileLock). *)
 
-(* At most one handle believes it holds the lock -- whatever the topology. *)
+(* At most one handle believes it holds the lock -- whatever the topology, forked workers included. *)
 Theorem C01_lock_exclusive_any_topology : forall (proc : hid -> pid) evs h1 h2,
+  forks_quiescent gen_lock_disc proc linit evs ->
   let s := lrun gen_lock_disc proc linit evs in lholds s h1 -> lholds s h2 -> h1 = h2.
 Proof. exact ProcLockProofs.gen_lock_exclusive. Qed.
 Print Assumptions C01_lock_exclusive_any_topology.
@@ -107,22 +173,38 @@ Print Assumptions C01_lock_exclusive_any_topology.
    (so the fence of the commit point, which reads the flag, tells the truth), and every enabled event moves that
    view the way `step` moves `w_lock`: a granted attempt only from a free lock, a refused one only while another
    handle holds, the holder's unlock frees it, a process death frees it iff the holder lived there, and nothing else
-   -- no open, no close of a refused or released descriptor, in the holder's process or any other -- touches it. *)
+   -- no open, no close of a refused or released descriptor, in the holder's process or any other, no fork of an idle
+   handle -- touches it. *)
 Theorem C01_lock_refines_excl : forall (proc : hid -> pid) evs,
+  forks_quiescent gen_lock_disc proc linit evs ->
   let s := lrun gen_lock_disc proc linit evs in
   (forall h, lholds s h <-> lock_view s = Some h)
-  /\ (forall e s', lstep gen_lock_disc proc s e = Some s' -> view_effect proc s e s').
+  /\ (forall e s', fork_quiescent s e -> lstep gen_lock_disc proc s e = Some s' -> view_effect proc s e s').
 Proof. exact ProcLockProofs.gen_lock_refinement. Qed.
 Print Assumptions C01_lock_refines_excl.
 
 (* A holder cannot lose the lock to anything but its own unlock or the death of its own process: what the other
-   handles do -- those sharing its process included -- leaves its flag set AND its description the kernel's owner. *)
+   handles do -- those sharing its process and its forked twins included -- leaves its flag set AND its description
+   the kernel's owner. *)
 Theorem C01_lock_not_dropped_by_others : forall (proc : hid -> pid) evs e s' h,
+  forks_quiescent gen_lock_disc proc linit evs ->
   let s := lrun gen_lock_disc proc linit evs in
-  lstep gen_lock_disc proc s e = Some s' -> lholds s h -> e <> LStep h KUnlock -> e <> LKill (proc h) ->
+  fork_quiescent s e -> lstep gen_lock_disc proc s e = Some s' -> lholds s h -> e <> LStep h KUnlock -> e <> LKill (proc h) ->
   lholds s' h /\ lock_view s' = Some h.
 Proof. exact ProcLockProofs.gen_lock_keeps_holder. Qed.
 Print Assumptions C01_lock_not_dropped_by_others.
+
+(* WHY a forked worker is just another writer: the regenerated program opens the lock file per attempt and closes it on
+   refusal and in release(), so an idle handle holds NO descriptor of the lock file; a worker forked while its parent's
+   handle is idle inherits nothing -- the fork changes no descriptor table, no owner, no handle state. *)
+Theorem C01_fork_inherits_nothing : forall (proc : hid -> pid) evs,
+  forks_quiescent gen_lock_disc proc linit evs ->
+  let s := lrun gen_lock_disc proc linit evs in
+  (forall h d, l_h s h = HIdle -> ~ In (d, h) (l_open s))
+  /\ (forall h h' s', l_h s h = HIdle -> lstep gen_lock_disc proc s (LFork h h') = Some s' ->
+        l_open s' = l_open s /\ l_next s' = l_next s /\ l_owner s' = l_owner s /\ forall k, l_h s' k = l_h s k).
+Proof. exact ProcLockProofs.gen_lock_fork_inherits_nothing. Qed.
+Print Assumptions C01_fork_inherits_nothing.
 
 (* The handle program of the model is, primitive for primitive, the skeleton the translator regenerates from
    FileLock._try_acquire_once / FileLock.release; the discipline is the description-owned one; the fence is the
@@ -132,12 +214,31 @@ Theorem C01_lock_skeleton_regenerated :
   /\ flat_map lactions_of attempt_granted_events = gen_attempt_granted
   /\ flat_map lactions_of attempt_refused_events = gen_attempt_refused
   /\ flat_map lactions_of release_events = gen_release
-  /\ (forall (proc : hid -> pid) evs h, let s := lrun gen_lock_disc proc linit evs in
+  /\ (forall (proc : hid -> pid) evs h, forks_quiescent gen_lock_disc proc linit evs ->
+        let s := lrun gen_lock_disc proc linit evs in
         l_h s h = HIdle -> lock_view s = None ->
         exists s', lrun_strict gen_lock_disc proc s (map (LStep h) attempt_granted_events) 0 = inl s'
                    /\ lholds s' h /\ lock_view s' = Some h).
 Proof. exact ProcLockProofs.gen_lock_skeleton. Qed.
 Print Assumptions C01_lock_skeleton_regenerated.
+
+(* Non-vacuity of the fork hypotheses: a parent (handle 0, process 0) uses its lock once, then forks two workers
+   (handles 1, 2 in processes 1, 2); worker 1 takes the lock, the parent and worker 2 are refused, worker 1 releases,
+   the parent takes it.  Every fork is quiescent, the strict run accepts every event, exactly handle 0 holds. *)
+Definition own_proc (h : hid) : pid := h.
+Definition ex_fork_sched : list levent :=
+  [LStep 0 KOpen; LStep 0 (KTry true); LStep 0 KUnlock; LStep 0 KClose; LFork 0 1; LFork 0 2;
+   LStep 1 KOpen; LStep 1 (KTry true); LStep 0 KOpen; LStep 0 (KTry false); LStep 0 KCloseRefused;
+   LStep 2 KOpen; LStep 2 (KTry false); LStep 2 KCloseRefused; LStep 1 KUnlock; LStep 1 KClose;
+   LStep 0 KOpen; LStep 0 (KTry true)]%nat.
+Example C01_fork_nonvacuous :
+  forks_quiescent gen_lock_disc own_proc linit ex_fork_sched
+  /\ (exists s, lrun_strict gen_lock_disc own_proc linit ex_fork_sched 0 = inl s
+                 /\ s = lrun gen_lock_disc own_proc linit ex_fork_sched /\ lock_view s = Some 0%nat /\ lholds s 0%nat).
+Proof.
+  split; [vm_compute; repeat split|]. eexists. split; [vm_compute; reflexivity|]. split; [vm_compute; reflexivity|].
+  split; [vm_compute; reflexivity|]. eexists. vm_compute. reflexivity.
+Qed.
 
 (* Why the discipline and the topology matter (refutation witnesses; the harness replays their shape on the real
    code: X holds, Y in X's process touches the lock file, Z in another process attempts).  With PROCESS-owned locks
@@ -173,6 +274,47 @@ Proof.
   eexists. vm_compute. reflexivity.
 Qed.
 
+(* Why the fork hypothesis cannot be dropped (fork(2), whatever the library does): a fork while the copied handle HOLDS
+   gives the worker a twin whose flag says "held" and whose descriptor shares the parent's description -- two handles
+   believe they hold; and the twin's release() unlocks the SHARED description: the parent's lock is gone while the
+   parent still believes it holds, and an independent third handle is granted. *)
+Example C01_fork_while_holding_not_exclusive :
+  (exists s, lrun_strict gen_lock_disc own_proc linit [LStep 0 KOpen; LStep 0 (KTry true); LFork 0 1]%nat 0 = inl s
+             /\ lholds s 0%nat /\ lholds s 1%nat)
+  /\ (exists s, lrun_strict gen_lock_disc own_proc linit
+               [LStep 0 KOpen; LStep 0 (KTry true); LFork 0 1; LStep 1 KUnlock; LStep 1 KClose;
+                LStep 2 KOpen; LStep 2 (KTry true)]%nat 0 = inl s
+             /\ lholds s 0%nat /\ lholds s 2%nat)
+  /\ ~ forks_quiescent gen_lock_disc own_proc linit [LStep 0 KOpen; LStep 0 (KTry true); LFork 0 1]%nat.
+Proof.
+  split; [|split].
+  - eexists. split; [vm_compute; reflexivity|]. split; eexists; vm_compute; reflexivity.
+  - eexists. split; [vm_compute; reflexivity|]. split; eexists; vm_compute; reflexivity.
+  - vm_compute. intros [_ [_ [H _]]]. discriminate.
+Qed.
+
+(* Why the per-attempt open / close of the regenerated program matters (Model/ProcLockKeep.v: the same kernel, a handle
+   that KEEPS its descriptor across acquisitions): the parent uses its lock once, a worker is forked while the parent's
+   handle is idle -- and inherits the kept descriptor --; then the parent takes the lock and the worker's attempt through
+   the shared description is GRANTED as well (both hold, in two processes); the worker's unlock drops the parent's lock
+   and an independent third handle is granted while the parent still believes it holds. *)
+Example C01_kept_descriptor_not_exclusive_after_fork :
+  (exists s, krun_strict gen_lock_disc own_proc linit
+               [KEv (LStep 0 KOpen); KEv (LStep 0 (KTry true)); KUnlockKeep 0; KForkKeep 0 1;
+                KEv (LStep 0 (KTry true)); KEv (LStep 1 (KTry true))]%nat 0 = inl s
+             /\ lholds s 0%nat /\ lholds s 1%nat /\ own_proc 0%nat <> own_proc 1%nat)
+  /\ (exists s, krun_strict gen_lock_disc own_proc linit
+               [KEv (LStep 0 KOpen); KEv (LStep 0 (KTry true)); KUnlockKeep 0; KForkKeep 0 1;
+                KEv (LStep 0 (KTry true)); KEv (LStep 1 (KTry true)); KUnlockKeep 1;
+                KEv (LStep 2 KOpen); KEv (LStep 2 (KTry true))]%nat 0 = inl s
+             /\ lholds s 0%nat /\ lholds s 2%nat).
+Proof.
+  split.
+  - eexists. split; [vm_compute; reflexivity|]. split; [eexists; vm_compute; reflexivity|].
+    split; [eexists; vm_compute; reflexivity | vm_compute; discriminate].
+  - eexists. split; [vm_compute; reflexivity|]. split; eexists; vm_compute; reflexivity.
+Qed.
+
 (* Non-vacuity: a concrete schedule on the exclusive-lock configuration with a FROZEN clock in which
    a metadata-only commit (actor 1) lands between actor 0's base read and its validation: actor 0
    detects the conflict, retries and both commits are reflected in pointer order 1, 0. *)
@@ -192,3 +334,41 @@ Example C01_nonvacuous :
   /\ a_pc (w_actors w 0%nat) = PDone Success /\ a_pc (w_actors w 1%nat) = PDone Success
   /\ run_strict ex_cfg (init_world ex_m0 (fun a => match a with O => KFresh | _ => KKeep end) (fun _ => 50%nat)) ex_sched 0 = inl w.
 Proof. split; [right; reflexivity | vm_compute; repeat split]. Qed.
+
+(* Non-vacuity of C01_serializable_tables / C01_snapshot_chain: the same schedule with both committers appending, read
+   through Model/Meta.v with a concrete interpretation (committer a appends one file under snapshot id a+1 and writes
+   metadata file a+1).  The interpretation satisfies the freshness hypothesis for EVERY duplicate-free list of
+   committers, and the table the pointer names holds the two snapshots in pointer order 1, 0: ids 2 then 1, sequence
+   numbers 1 then 2, the second's parent is the first. *)
+Definition ex_op_of (a : aid) : Meta.op :=
+  Meta.Txn [Meta.TAppend [(0, Z.of_nat a + 10)]] (Z.of_nat a + 1) 100 100 (Z.of_nat a + 1).
+Example C01_snapshot_chain_hypothesis_satisfiable :
+  forall l : list aid, NoDup l -> MetaSpec.fresh_ops 0 ([] ++ map ex_op_of l).
+Proof.
+  intros l ND. simpl.
+  assert (E1 : flat_map MetaSpec.op_ids (map ex_op_of l) = map (fun a => Z.of_nat a + 1) l).
+  { clear ND. induction l as [|a l IH]; simpl; [reflexivity|]. rewrite IH. reflexivity. }
+  assert (E2 : map MetaSpec.op_file (map ex_op_of l) = map (fun a => Z.of_nat a + 1) l) by (rewrite map_map; reflexivity).
+  assert (NDm : NoDup (map (fun a => Z.of_nat a + 1) l)) by (apply Injective_map_NoDup; [intros x y H; lia | exact ND]).
+  unfold MetaSpec.fresh_ops. rewrite E1, E2. split; [exact NDm|]. split.
+  - apply Forall_forall. intros x Hx. apply in_map_iff in Hx. destruct Hx as [a [<- _]]. lia.
+  - constructor; [|exact NDm]. intro Hx. apply in_map_iff in Hx. destruct Hx as [a [E _]]. lia.
+Qed.
+Example C01_snapshot_chain_nonvacuous :
+  let w := run ex_cfg (init_world ex_m0 (fun _ => KFresh) (fun _ => 50%nat)) ex_sched in
+  let T := Meta.md (table_of (MetaSpec.replay 100 0 []) ex_op_of (file w (w_ptr w))) in
+  map snd (w_hist w) = [1; 0]%nat
+  /\ map (fun s => (Meta.sid s, Meta.seq s, Meta.parent s)) (Meta.snaps T) = [(2, 1, Some (-1)); (1, 2, Some 2)]
+  /\ Meta.cur T = Some 1
+  /\ table_of (MetaSpec.replay 100 0 []) ex_op_of (file w (w_ptr w)) = MetaSpec.replay 100 0 (map ex_op_of [1; 0]%nat).
+Proof. vm_compute. repeat split. Qed.
+
+(* Non-vacuity of C01_conflict_retried's budget statement: a committer with budget 1 (delete_snapshot) that loses one
+   conflict reports it after exactly one attempt. *)
+Example C01_budget_nonvacuous :
+  let w := run ex_cfg (init_world ex_m0 (fun _ => KKeep) (fun _ => 1%nat))
+             [ ev 0 (EBegin 0); ev 1 (EBegin 0); ev 1 (ELockTry true); ev 1 (EValidate 0 true); ev 1 (EMetaW 100);
+               ev 1 (EFence true); ev 1 (EFlip true); ev 1 ERelease;
+               ev 0 (ELockTry true); ev 0 (EValidate 1 false); ev 0 ERelease ]%nat in
+  a_pc (w_actors w 0%nat) = PDone Conflict /\ a_attempt (w_actors w 0%nat) = 0%nat /\ map snd (w_hist w) = [1%nat].
+Proof. vm_compute. repeat split. Qed.
